@@ -23,7 +23,9 @@ DocOf(k) == LET ps == [p \in 1..NPages(k) |-> PageOf(k, p, 20 * p)] IN
 Cfgs == << [maxTokens |-> 512, mergeAdjacent |-> TRUE, propagate |-> TRUE, context |-> "heading"], [maxTokens |-> 12, mergeAdjacent |-> FALSE, propagate |-> TRUE, context |-> "contextual"],
            [maxTokens |-> 40, mergeAdjacent |-> TRUE, propagate |-> FALSE, context |-> "none"], [maxTokens |-> 512, mergeAdjacent |-> FALSE, propagate |-> TRUE, context |-> "none"],
            [maxTokens |-> 25, mergeAdjacent |-> TRUE, propagate |-> TRUE, context |-> "contextual"] >>
-SortedMarkers(b) == IF b.kind = "tb" THEN <<"T" \o ToString(b.id) \o "A", "T" \o ToString(b.id) \o "B", "T" \o ToString(b.id) \o "C", "T" \o ToString(b.id) \o "D">> ELSE <<Letter(b.kind) \o ToString(b.id) \o "X">>
+SortedMarkers(b) == IF b.kind = "tb" THEN <<"T" \o ToString(b.id) \o "A", "T" \o ToString(b.id) \o "B", "T" \o ToString(b.id) \o "C", "T" \o ToString(b.id) \o "D">>
+                    ELSE IF b.kind = "p" THEN SubSeq(<<"P" \o ToString(b.id) \o "X", "P" \o ToString(b.id) \o "B", "P" \o ToString(b.id) \o "C">>, 1, b.lines)
+                    ELSE <<Letter(b.kind) \o ToString(b.id) \o "X">>
 Ideal(bs) == [i \in 1..Len(bs) |-> [markers |-> SortedMarkers(bs[i]), occurrences |-> [x \in 1..Cardinality(MarkersOf(bs[i])) |-> 1], pages |-> <<bs[i].page>>, path |-> Governing(bs, i), id |-> i]]
 VARIABLE done
 Init == done = FALSE
